@@ -626,6 +626,26 @@ def rule_REP(ctx):
                    "written (h,B,h,B - what '<hB,<hB' and '2*(<hB)' give), so packed values meet the wrong codes", loc=f.loc(node))
         else:
             raise AnalysisError(f'preprocess_tokens: cannot classify how the result grows ({norm(node)}) (needs a human)')
+    # the bracket form: n copies for every n the grammar admits, including 0 ('0*(f)' is f written zero times, as '0*f' is).
+    # A repetition written (n - 1) * (x + sep) + x always leaves one copy.
+    g = m.funcs.get('utils:expand_brackets')
+    if g is None:
+        raise AnalysisError('anchor vanished: utils.expand_brackets')
+    facs = {x.targets[0].id for x in own_walk(g.node) if isinstance(x, ast.Assign) and isinstance(x.targets[0], ast.Name) and 'group' in ast.unparse(x.value)
+            and 'int(' in ast.unparse(x.value)}
+    if not facs:
+        raise AnalysisError('expand_brackets: factor variable not recognised')
+    reps = [x for x in own_walk(g.node) if isinstance(x, ast.BinOp) and isinstance(x.op, ast.Mult)
+            and any(isinstance(y, ast.Name) and y.id in facs for y in ast.walk(x))]
+    if not reps:
+        raise AnalysisError('expand_brackets: repetition by the factor not recognised')
+    for x in reps:
+        side = x.left if any(isinstance(y, ast.Name) and y.id in facs for y in ast.walk(x.left)) else x.right
+        if isinstance(side, ast.BinOp) and isinstance(side.op, ast.Sub) and isinstance(side.right, ast.Constant) and side.right.value == 1:
+            r.fail(g.key, x, f"the bracket group is repeated {ast.unparse(side)} times and then written once more: for a factor of 0 one copy remains, "
+                   "although '0*(f)' is f written zero times (and '0*f' without brackets gives none)", loc=g.loc(x))
+        else:
+            r.ok(f'{g.key}:{norm(x)}', {'instance': g.key, 'repetition': norm(x), 'verdict': 'n copies for every n >= 0'})
     return r
 
 
